@@ -63,6 +63,8 @@ pub enum EvKind {
     Deliver,
     /// statx / fstat on a simulated file
     Stat,
+    /// harness level: FollowFileExecutor::new has returned (start-up is over); the writer may land appends here
+    Constructed,
 }
 
 #[derive(Clone, Debug)]
@@ -105,6 +107,8 @@ pub struct VFile {
     pub data: Vec<u8>,
     /// behaves like a pipe / FIFO / stdin: metadata reports a FIFO of size 0, seeking fails with ESPIPE
     pub pipe: bool,
+    /// unreadable: every read fails with EIO (a directory given as input, a failing medium)
+    pub unreadable: bool,
 }
 
 struct OpenFd {
@@ -153,6 +157,8 @@ pub struct World {
     pub sleeps: u64,
     pub clock_reads: u64,
     pub stat_calls: u64,
+    /// seam calls made by threads the system under simulation spawned itself
+    pub foreign_thread_calls: u64,
 }
 
 impl World {
@@ -190,11 +196,12 @@ impl World {
             sleeps: 0,
             clock_reads: 0,
             stat_calls: 0,
+            foreign_thread_calls: 0,
         }
     }
 
     pub fn add_file(&mut self, path: &str, data: Vec<u8>) -> usize {
-        self.files.push(VFile { path: path.to_owned(), data, pipe: false });
+        self.files.push(VFile { path: path.to_owned(), data, pipe: false, unreadable: false });
         self.files.len() - 1
     }
 
@@ -252,6 +259,8 @@ impl World {
             if let Some(tx) = self.hard_stop.take() {
                 let _ = tx.send(());
             }
+            // parked for good: give the world lock back so that the next world of this process can start
+            unlock_world();
             loop {
                 unsafe { libc::syscall(libc::SYS_pause); }
             }
@@ -294,6 +303,7 @@ impl World {
         }
         let interrupted = self.fire_interrupt_if(false);
         let (fault, landed) = self.take_step();
+        let fault = if self.files[file].unreadable { Fault::Eio } else { fault };
         let off = at.unwrap_or(self.offsets[self.fds[slot].ofd]);
         let len = self.files[file].data.len();
         let mut ev = Event { kind: EvKind::Read, file, req: count as i64, ret: 0, off, landed, len, fault: fault.clone(), interrupted, text: None };
@@ -442,6 +452,25 @@ impl World {
         self.log.push(Event { kind: EvKind::Print, file: 0, req: 0, ret: 0, off: 0, landed: 0, len: 0, fault: Fault::None, interrupted, text: Some(line.as_bytes().to_vec()) });
     }
 
+    /// Harness-level scheduling point between the executor's construction and its execute() call.
+    pub fn on_constructed(&mut self, land: usize) {
+        let interrupted = self.fire_interrupt_if(false);
+        let mut landed = 0usize;
+        let mut n = land;
+        while n > 0 {
+            match self.pending.pop_front() {
+                Some((file, bytes)) => {
+                    landed += bytes.len();
+                    self.files[file].data.extend_from_slice(&bytes);
+                }
+                None => break,
+            }
+            n -= 1;
+        }
+        let len = self.files.first().map(|f| f.data.len()).unwrap_or(0);
+        self.log.push(Event { kind: EvKind::Constructed, file: 0, req: 0, ret: 0, off: 0, landed, len, fault: Fault::None, interrupted, text: None });
+    }
+
     pub fn on_deliver(&mut self, item: &[u8]) {
         let interrupted = self.fire_interrupt_if(false);
         self.log.push(Event { kind: EvKind::Deliver, file: 0, req: 0, ret: 0, off: 0, landed: 0, len: 0, fault: Fault::None, interrupted, text: Some(item.to_vec()) });
@@ -466,16 +495,43 @@ impl World {
 thread_local! {
     static WORLD: Cell<*mut World> = const { Cell::new(std::ptr::null_mut()) };
     static IN_SEAM: Cell<bool> = const { Cell::new(false) };
+    /// threads of the harness itself (orchestrator / worker main thread) never enter a world
+    static HARNESS_THREAD: Cell<bool> = const { Cell::new(false) };
 }
+
+/// The world of the process' current SUT thread. Threads that the system under simulation spawns itself have
+/// no world of their own: their calls are served by this one, under `WORLD_LOCK` (their scheduling stays the
+/// operating system's, so a run with such threads is not exactly replayable - but their I/O, entropy and clock
+/// stay inside the simulation instead of silently reaching the real kernel).
+static GLOBAL_WORLD: std::sync::atomic::AtomicPtr<World> = std::sync::atomic::AtomicPtr::new(std::ptr::null_mut());
+static WORLD_LOCK: AtomicBool = AtomicBool::new(false);
 
 /// Global counters used by the start-up self check.
 pub static SEAM_READS: std::sync::atomic::AtomicUsize = std::sync::atomic::AtomicUsize::new(0);
 pub static SEAM_READY: AtomicBool = AtomicBool::new(false);
 
+pub fn mark_harness_thread() {
+    HARNESS_THREAD.with(|h| h.set(true));
+}
+
+fn lock_world() {
+    while WORLD_LOCK.swap(true, Ordering::Acquire) {
+        std::hint::spin_loop();
+    }
+}
+
+fn unlock_world() {
+    WORLD_LOCK.store(false, Ordering::Release);
+}
+
 pub fn install(world: Box<World>) {
     WORLD.with(|w| {
         assert!(w.get().is_null(), "world already installed on this thread");
-        w.set(Box::into_raw(world));
+        let p = Box::into_raw(world);
+        w.set(p);
+        lock_world();
+        GLOBAL_WORLD.store(p, Ordering::SeqCst);
+        unlock_world();
     });
 }
 
@@ -483,6 +539,11 @@ pub fn uninstall() -> Box<World> {
     WORLD.with(|w| {
         let p = w.replace(std::ptr::null_mut());
         assert!(!p.is_null());
+        lock_world();
+        if GLOBAL_WORLD.load(Ordering::SeqCst) == p {
+            GLOBAL_WORLD.store(std::ptr::null_mut(), Ordering::SeqCst);
+        }
+        unlock_world();
         unsafe { Box::from_raw(p) }
     })
 }
@@ -502,19 +563,37 @@ pub fn with_world<R>(f: impl FnOnce(&mut World) -> R) -> Option<R> {
 
 #[inline]
 fn enter() -> Option<&'static mut World> {
-    let p = WORLD.try_with(|w| w.get()).unwrap_or(std::ptr::null_mut());
-    if p.is_null() {
-        return None;
+    let own = WORLD.try_with(|w| w.get()).unwrap_or(std::ptr::null_mut());
+    let foreign = own.is_null();
+    if foreign {
+        if HARNESS_THREAD.try_with(|h| h.get()).unwrap_or(true) {
+            return None;
+        }
+        if GLOBAL_WORLD.load(Ordering::SeqCst).is_null() {
+            return None;
+        }
     }
     let busy = IN_SEAM.try_with(|b| b.replace(true)).unwrap_or(true);
     if busy {
         return None;
     }
-    Some(unsafe { &mut *p })
+    lock_world();
+    let p = if foreign { GLOBAL_WORLD.load(Ordering::SeqCst) } else { own };
+    if p.is_null() {
+        unlock_world();
+        let _ = IN_SEAM.try_with(|b| b.set(false));
+        return None;
+    }
+    let world = unsafe { &mut *p };
+    if foreign {
+        world.foreign_thread_calls += 1;
+    }
+    Some(world)
 }
 
 #[inline]
 fn exit() {
+    unlock_world();
     let _ = IN_SEAM.try_with(|b| b.set(false));
 }
 
